@@ -125,7 +125,7 @@ def Script.handleSim (sc : Script) (s : PState) (i : Input) (clock : T) (draws :
       | .clock tip => (acc.1 ++ [Action.loc ⟨tip, TimeOps.render clock⟩], acc.2)
       | .rand tip => (acc.1 ++ [Action.loc ⟨tip, TimeOps.render ((draws.drop acc.2).headD TimeOps.zero)⟩], acc.2 + 1)
       | a => (acc.1 ++ [a.toAction i.data], acc.2)) ([], 0)
-    ({ st := r.st2, hist }, acts, used)
+    ({ st := r.st2, hist }, if sc.canon then canonOrder acts else acts, used)
 
 def simScriptHandler (scripts : List (Nat × Script)) : SHandler PState T :=
   fun proc s i clock draws => match amGet? proc scripts with
